@@ -8,7 +8,9 @@
 //! immediate and delayed) post concurrently; the network drops requests, duplicates them and loses
 //! responses according to a per-run plan; sessions end while requests for them are in flight.
 //!
-//! Oracle, per request copy that reached the server (span HttpDispatch..HttpHandled on the net task):
+//! Every request copy is handled by a worker task of its own, so handlers overlap like in rocket's pool.
+//!
+//! Oracle, per request copy that reached the server (span HttpDispatch..HttpHandled on its worker task):
 //!  * valid (numeric id of a session that exists, `_scxmleventname` present): status 200 and exactly one
 //!    event on exactly that session's external queue, named as posted, params = the other fields as
 //!    strings, content = `_content`;
@@ -176,13 +178,15 @@ impl Property for C20Prop {
             "fault:drop-response",
             "received:data-seen",
             "concurrent:requests-overlap-session-work",
+            "concurrent:handlers-overlap",
+            "concurrent:session-started-during-requests",
         ]
     }
     fn assumptions(&self) -> Vec<String> {
         vec![
             "the TCP listener of rocket and the ureq client are replaced by the simulated network; ureq's encoding step is reproduced with the same form_urlencoded serializer it calls; rocket's routing, form decoding and the handler run for real through rocket's in-process dispatch".into(),
             "field names are distinct within one form and contain none of rocket's form-key separators ('.', '[', ']', ':'); event names and values are arbitrary non-empty text without single quotes".into(),
-            "requests are served one at a time in wire order: the handler holds the executor lock for its whole body, so concurrent handlers are equivalent to some serial order".into(),
+            "every request copy is handled by a task of its own (rocket's worker pool): handlers run concurrently with each other, with the sessions and with host tasks that start further sessions".into(),
             "a duplicated request (network retransmission) is two POSTs and yields two events; a dropped one yields none".into(),
         ]
     }
@@ -310,6 +314,15 @@ impl Property for C20Prop {
                 producers[p].insert(at, PStep::Send { sess: k, ev });
             }
         }
+        // a host task starts one more session while requests are being handled (start_fsm and the handler both
+        // take the executor state)
+        let late = rng.chance(1, 2);
+        if late {
+            docs.push(DocSrc { name: format!("h{}", m + 1), xml: peer_doc(m, &[]), via_rfsm: false, model: None });
+            let p = rng.below(nprod as u64) as usize;
+            producers[p].push(PStep::Start { doc: m });
+            notes.insert("late".into(), "1".into());
+        }
         for p in producers.iter_mut() {
             rng.shuffle(p);
         }
@@ -386,6 +399,7 @@ impl Property for C20Prop {
                 let mut status: Option<u16> = None;
                 let mut sends: Vec<(usize, Option<EvDesc>, bool)> = Vec::new();
                 let mut foreign_between = false;
+                let mut other_handler_between = false;
                 while j < v.log.len() {
                     let q = &v.log[j];
                     if q.task == net_task {
@@ -400,6 +414,8 @@ impl Property for C20Prop {
                         }
                     } else if q.session != 0 {
                         foreign_between = true;
+                    } else if matches!(q.kind, RecKind::HttpDispatch { .. } | RecKind::HttpHandled { .. }) {
+                        other_handler_between = true;
                     }
                     j += 1;
                 }
@@ -409,6 +425,9 @@ impl Property for C20Prop {
                     continue;
                 }
                 copies_reached += 1;
+                if other_handler_between {
+                    probes.hit("concurrent:handlers-overlap");
+                }
                 if foreign_between {
                     probes.hit("concurrent:requests-overlap-session-work");
                 }
@@ -510,8 +529,8 @@ impl Property for C20Prop {
                         vio.push(viol("C20", "C20.reject", format!("invalid POST {} ({}) enqueued {} event(s)", post.url, why, ok_sends.len()), format!("enqueued:{}", why)));
                     }
                 }
-                i = j;
-                continue;
+                // spans of concurrent handlers interleave: go on with the next record, not with the end of this span
+                let _ = j;
             }
             i += 1;
         }
@@ -626,6 +645,9 @@ impl Property for C20Prop {
             if name.starts_with('e') && !delivered.contains_key(&(*sid, name.clone())) && !seen.is_empty() {
                 vio.push(viol("C20", "C20.received", format!("session {} processed event '{}' that no acknowledged POST carried", sid, name), "received-unposted".into()));
             }
+        }
+        if v.sc.notes.contains_key("late") && copies_reached > 0 {
+            probes.hit("concurrent:session-started-during-requests");
         }
         verdict.nontrivial = copies_reached >= 3 && valid_seen >= 1 && (other_seen >= 1 || session_sends >= 1);
         let mut seen = BTreeSet::new();
